@@ -13,4 +13,7 @@ CutAll    == AlphaAll
 CutCore   == {"ck", "a15", "sA", "un", "eom"}
 AlpnsTls  == AllAlpns
 AlpnsQuic == AllAlpns \ {"none"}
+AlpnsOk   == {"ntske/1"}
+CutNone   == {}
+CutCk     == {"ck"}
 =============================================================================
